@@ -33,6 +33,8 @@ MODES = [None, "any", "both", "first"]
 SIDES = {"both": ["-a", ADAPTER, "-A", ADAPTER], "r1": ["-a", ADAPTER], "r2": ["-A", ADAPTER]}
 
 
+OUTPUT = "PairFilter.lean"      # the generated file (harness/core.py: a failure of this translator concerns the properties that import it)
+
 def _fastq(side, reads):
     out = []
     for pid, (seq, q, casava) in reads:
